@@ -18,7 +18,7 @@ import (
 // C16 — operations have no hidden side effects on caller-visible memory.
 type c16 struct{ base }
 
-func init() { core.Register(c16{base{"C16", "exploration", 260, 6000}}) }
+func init() { core.Register(c16{base{"C16", "exploration", 1000, 25000}}) }
 
 func (c16) Describe() core.Description {
 	return core.Description{
